@@ -233,6 +233,7 @@ def _int_unwrap(v):
 
 INT_EK = ElemKind('int', ISort, SInt, _int_unwrap)
 REAL_EK = ElemKind('real', RSort, SReal, lambda v: zr(v))
+STR_EK = ElemKind('str', StrSort, SStr, lambda v: zs(v))
 _SUMS = {}
 
 
